@@ -107,15 +107,15 @@ impl<T> Resequencer<T> {
             State::ReSequencing(offset) => offset,
         };
 
-        if let Some((key, _)) = self.buffer.first_key_value() {
-            if key.wrapping_add(offset) != self.next_seq {
-                return DrainResult::SequenceMissing;
-            }
-        } else {
+        if self.buffer.is_empty() {
             return DrainResult::Empty;
         }
 
-        let (_, message) = self.buffer.pop_first().unwrap();
+        /* Keys are offset relative and wrap, so look the expected sequence value up by its key rather than relying on key order */
+        let message = match self.buffer.remove(&self.next_seq.wrapping_sub(offset)) {
+            Some(message) => message,
+            None => return DrainResult::SequenceMissing,
+        };
         self.increment_next_seq();
 
         if self.buffer.is_empty() {
